@@ -341,6 +341,9 @@ func envelopeExpect(reg *Registry, v V) (Expect, bool) {
 		}
 		return Expect{Class: "notification"}, false
 	case hasID && id.K != 'z' && (hasRes || hasErr):
+		if !exact {
+			return Expect{Class: "free"}, false // not a JSON-RPC 2.0 response: dropping it and refusing it are both defensible
+		}
 		return Expect{Class: "response"}, false
 	case hasID && id.K != 'z':
 		return Expect{Class: "unserved", Cause: "id-without-method", Req: true}, false
